@@ -11,6 +11,12 @@ Must(tid, line, name, cond) ==
     IF cond THEN TRUE
     ELSE PrintT("@J reject " \o ToJson([tid |-> tid, line |-> line, clause |-> name])) /\ FALSE
 
+(* A conformance clause that is *not* part of a property: a mismatch between the code's internal *)
+(* state and the specification's machine is recorded ("drift") but does not decide the verdict.    *)
+Drift(tid, line, name, cond) ==
+    IF cond THEN TRUE
+    ELSE PrintT("@J drift " \o ToJson([tid |-> tid, line |-> line, clause |-> name]))
+
 Abs(x) == IF x < 0 THEN -x ELSE x
 
 RECURSIVE SumSeq(_)
